@@ -1,0 +1,61 @@
+//go:build verif
+
+// Contracts for the verification machinery under /verif (contract-based deductive
+// verification). This file is comment-only, is excluded from every normal build by the
+// "verif" build tag, and declares nothing. See /verif/DESIGN.md §4.
+
+package expr
+
+//@ func evaluateAnd(left, right) (res)
+//@   requires len(left) <= 1 && len(right) <= 1
+//@   ensures collTV(res) == andT(tvB(left), tvB(right))
+//@   assigns nothing
+//
+//@ func evaluateOr(left, right) (res)
+//@   requires len(left) <= 1 && len(right) <= 1
+//@   ensures collTV(res) == orT(tvB(left), tvB(right))
+//@   assigns nothing
+//
+//@ func evaluateXor(left, right) (res)
+//@   requires len(left) <= 1 && len(right) <= 1
+//@   ensures collTV(res) == xorT(tvB(left), tvB(right))
+//@   assigns nothing
+//
+//@ func evaluateImplies(left, right) (res)
+//@   requires len(left) <= 1 && len(right) <= 1
+//@   ensures collTV(res) == impT(tvB(left), tvB(right))
+//@   assigns nothing
+//
+// Interface contract of every expression node (DESIGN §4.3): total, and its result is
+// named by evalRes/evalErr (sub-expression evaluation is deterministic: C04).
+//@ iface Expression.Evaluate(e, ctx, input) (res, err)
+//@   requires ctx != nil
+//@   defines res == evalRes(e, ctx.ExternalConstants, ctx.Now, input)
+//@   defines err == evalErr(e, ctx.ExternalConstants, ctx.Now, input)
+//@   ensures err == nil ==> validColl(res)
+//@   assigns ctx.LastResult, ctx.BeforeLastResult
+//
+//@ func (c *Context) Clone() (res)
+//@   requires c != nil
+//@   ensures res != nil
+//@   ensures res.ExternalConstants == c.ExternalConstants && res.Now == c.Now && res.LastResult == c.LastResult
+//@   fresh res
+//@   assigns nothing
+//
+//@ func (e *BooleanExpression) Evaluate(ctx, input) (res, err)
+//@   requires e != nil && ctx != nil && e.Left != nil && e.Right != nil
+//@   let K = ctx.ExternalConstants
+//@   let N = ctx.Now
+//@   let l = evalRes(e.Left, K, N, input)
+//@   let r = evalRes(e.Right, K, N, input)
+//@   let lerr = evalErr(e.Left, K, N, input)
+//@   let rerr = evalErr(e.Right, K, N, input)
+//@   let ok = lerr == nil && rerr == nil && tvC(l) != TV_ERR && tvC(r) != TV_ERR
+//@   ensures lerr != nil || rerr != nil ==> err != nil
+//@   ensures lerr == nil && rerr == nil && (tvC(l) == TV_ERR || tvC(r) == TV_ERR) ==> err != nil
+//@   ensures ok && e.Op == And ==> err == nil && collTV(res) == andT(tvC(l), tvC(r))
+//@   ensures ok && e.Op == Or ==> err == nil && collTV(res) == orT(tvC(l), tvC(r))
+//@   ensures ok && e.Op == Xor ==> err == nil && collTV(res) == xorT(tvC(l), tvC(r))
+//@   ensures ok && e.Op == Implies ==> err == nil && collTV(res) == impT(tvC(l), tvC(r))
+//@   ensures ok && e.Op != And && e.Op != Or && e.Op != Xor && e.Op != Implies ==> is(err, ErrInvalidOperator)
+//@   assigns nothing
